@@ -68,7 +68,8 @@ def generate(r):
                 names.append(name)
                 stmts.append(["capture", name, source])
             elif kind == "fp":
-                stmts.append(["fp"])
+                # mostly through the fp() helper (the error is born one frame up), sometimes inline in this frame
+                stmts.append(["fp"] if r.random() < 0.7 else ["fpi"])
             elif kind == "call" and fi + 1 < nf:
                 g = r.randint(fi + 1, nf - 1)
                 stmts.append(["call", g, [const() for _ in range(params[g])]])
@@ -169,6 +170,8 @@ def render(funs, target, kind):
                 out.append("%slet %s = || %s;" % (ind, s[1], s[2] + "()" if s[2].startswith("g") else s[2]))
             elif s[0] == "fp":
                 out.append("%sfp();" % ind)
+            elif s[0] == "fpi":
+                out.append("%sCNT += 1; readFile('%s'); if CNT == TARGET { %s }" % (ind, DATA, action))
             elif s[0] == "call":
                 out.append("%sprint('R', %s);" % (ind, call_text(s[1], s[2])))
             elif s[0] == "print":
@@ -273,7 +276,7 @@ def model(funs, target, kind):
                     env[s[1]] = s[2]
             elif s[0] == "capture":
                 env[s[1]] = s[2]
-            elif s[0] == "fp":
+            elif s[0] in ("fp", "fpi"):
                 count[0] += 1
                 if count[0] == target:
                     raise Raise(kind)
@@ -388,7 +391,12 @@ class C04(Check):
         program_id = core.mix(repr(funs)) & 0xFFFFFFFFFFFF
         for target, kind in case["targets"]:
             source = render(funs, target, kind)
-            expect, _ = model(funs, target, kind)
+            try:
+                expect, _ = model(funs, target, kind)
+            except KeyError:
+                # a shrink candidate that dropped a declaration which a handler still prints: not a program
+                outcome["counters"]["invalid_shrink_candidate"] = 1
+                return outcome
             job = {"id": "frames", "main": workloads.MAIN, "files": {workloads.MAIN: source, DATA: "data"}, "gc": case["gc"],
                    "arena": case["arena"]}
             if kind == "IoError" and target > 0:
